@@ -46,12 +46,13 @@ def op_classes(ctx: Ctx) -> Dict[str, str]:
   return {q.rsplit('.', 1)[1]: q for q in ctx.p.subclasses(OP, strict=True)}
 
 
-def isinstance_names(test) -> Set[str]:
+def isinstance_names(test, resolve=None) -> Set[str]:
   out = set()
   for c in ast.walk(test):
     if isinstance(c, ast.Call) and isinstance(
         c.func, ast.Name) and c.func.id == 'isinstance' and len(c.args) == 2:
-      tys = c.args[1].elts if isinstance(c.args[1], ast.Tuple) else [c.args[1]]
+      ty = resolve(c.args[1]) if resolve is not None else c.args[1]
+      tys = ty.elts if isinstance(ty, ast.Tuple) else [ty]
       for t in tys:
         out.add(unparse(t).split('.')[-1])
   return out
@@ -83,6 +84,17 @@ def buildable_facets(ctx: Ctx, rs: RuleSet, rule: str, only=None):
         facets['old-arguments'].append(n)
       elif it == f'{new_p}.__arguments__':
         facets['new-arguments'].append(n)
+    elif g.kind[n] == 'stmt' and any(
+        isinstance(e, ast.comprehension) and unparse(e.iter) in (
+            f'{old_p}.__arguments__', f'{new_p}.__arguments__')
+        for e in cfg_lib.walk_node(g, n)):
+      # the enumeration written as a comprehension / generator expression
+      for e in cfg_lib.walk_node(g, n):
+        if isinstance(e, ast.comprehension):
+          if unparse(e.iter) == f'{old_p}.__arguments__':
+            facets['old-arguments'].append(n)
+          elif unparse(e.iter) == f'{new_p}.__arguments__':
+            facets['new-arguments'].append(n)
     elif g.kind[n] == 'stmt' and any(
         isinstance(e, ast.Call) and unparse(e.func).endswith(
             '.record_tag_diffs') for e in cfg_lib.walk_node(g, n)):
@@ -156,9 +168,10 @@ def run(ctx: Ctx, rs: RuleSet, tier: str):
   ac = ctx.func(f'{D}._apply_changes')
   order = None
   for n in walk_function(ac.node):
-    if isinstance(n, ast.For) and isinstance(n.iter, ast.Tuple) and all(
-        isinstance(e, (ast.Name, ast.Attribute)) for e in n.iter.elts):
-      names = [unparse(e).split('.')[-1] for e in n.iter.elts]
+    it_ = ctx.const(n.iter, ac) if isinstance(n, ast.For) else None
+    if isinstance(n, ast.For) and isinstance(it_, ast.Tuple) and all(
+        isinstance(e, (ast.Name, ast.Attribute)) for e in it_.elts):
+      names = [unparse(e).split('.')[-1] for e in it_.elts]
       if set(names) & set(ops):
         order = names
   if order is None:
@@ -174,7 +187,7 @@ def run(ctx: Ctx, rs: RuleSet, tier: str):
     if g.kind[n] == 'if':
       t = g.stmt[n].test
       if isinstance(t, ast.UnaryOp) and isinstance(t.op, ast.Not):
-        names = isinstance_names(t.operand)
+        names = isinstance_names(t.operand, lambda e: ctx.const(e, vc))
         r = g.reach([x for x, lab in g.succ[n] if lab == 'true'],
                     labels=cfg_lib.NO_EXC)
         if names and g.exit not in r:
@@ -201,8 +214,8 @@ def run(ctx: Ctx, rs: RuleSet, tier: str):
     if isinstance(n, ast.Call) and isinstance(
         n.func, ast.Attribute) and n.func.attr == 'apply' and len(n.args) == 2:
       recv = unparse(n.func.value)
-      a0 = unparse(roles.deref(ac, n.args[0]))
-      a1 = unparse(roles.deref(ac, n.args[1]))
+      a0 = unparse(roles.deref_deep(ac, n.args[0]))
+      a1 = unparse(roles.deref_deep(ac, n.args[1]))
       ok = a1 == f'{recv}.target[-1]' and a0.endswith(
           f'[{recv}.target[:-1]]')
   rs.check(ok, 'ORD.application-order', f'{ac.qualname}:apply',
